@@ -1,6 +1,6 @@
 (* C01 front-end, OpenAPI: printing a decimal constant and parsing it back.
      oa_roundtrip_int   : every integer (general, by induction on the digits)
-     oa_roundtrip_small : bounds (m, e) with |m| <= 10000, -3 <= e <= 0 (by enumeration; the only use of bound_small) *)
+   (the enumeration over small bounds that used to be here is replaced by FrontEndLemmas.FEDec.dec_roundtrip) *)
 From Coq Require Import List String ZArith Bool Ascii Arith Lia.
 From Cog Require Import Model.IR Model.Json Model.GoSemBase Model.GoSemValidate Model.Src Model.FrontEnd Model.FrontEndSpec.
 Import ListNotations.
@@ -126,32 +126,4 @@ Qed.
 Lemma oa_roundtrip_dec0 m : parse_dec (dec_string m 0) = Some (m, 0%Z).
 Proof.
   unfold dec_string. cbn [Z.leb Z.compare]. change (10 ^ 0)%Z with 1%Z. rewrite Z.mul_1_r. apply oa_roundtrip_int.
-Qed.
-
-(* ---------- small bounds, by enumeration ---------- *)
-Definition oa_rt_ok (m e : Z) : bool :=
-  match parse_dec (dec_string m e) with Some (a, b) => (Z.eqb a m && Z.eqb b e)%bool | None => false end.
-Definition oa_zrange (lo : Z) (cnt : nat) : list Z := map (fun i => (lo + Z.of_nat i)%Z) (seq 0 cnt).
-Lemma oa_zrange_in lo cnt z : (lo <= z < lo + Z.of_nat cnt)%Z -> In z (oa_zrange lo cnt).
-Proof.
-  intro H. unfold oa_zrange. apply in_map_iff. exists (Z.to_nat (z - lo)). split.
-  - rewrite Z2Nat.id by lia. lia.
-  - apply in_seq. lia.
-Qed.
-Lemma oa_rt_all :
-  forallb (fun m => forallb (fun e => oa_rt_ok m e) (oa_zrange (-3) 4)) (oa_zrange (-10000) (Z.to_nat 20001)) = true.
-Proof. vm_compute. reflexivity. Qed.
-Lemma oa_roundtrip_small p : bound_small p = true -> parse_dec (dec_string (fst p) (snd p)) = Some p.
-Proof.
-  destruct p as [m e]. unfold bound_small. cbn [fst snd]. intro H.
-  apply andb_true_iff in H. destruct H as [H H4]. apply andb_true_iff in H. destruct H as [H H3].
-  apply andb_true_iff in H. destruct H as [H1 H2].
-  apply Z.leb_le in H1, H2, H3, H4.
-  pose proof oa_rt_all as A. rewrite forallb_forall in A.
-  assert (Im : In m (oa_zrange (-10000) (Z.to_nat 20001))) by (apply oa_zrange_in; lia).
-  specialize (A m Im). rewrite forallb_forall in A.
-  assert (Ie : In e (oa_zrange (-3) 4)) by (apply oa_zrange_in; lia).
-  specialize (A e Ie). unfold oa_rt_ok in A.
-  destruct (parse_dec (dec_string m e)) as [[a b]|]; [|discriminate].
-  apply andb_true_iff in A. destruct A as [A1 A2]. apply Z.eqb_eq in A1, A2. subst. reflexivity.
 Qed.
